@@ -67,6 +67,32 @@ func alwaysNonNil(fn *ssa.Function, idx int, memo nonNilMemo, depth int) bool {
 	return ok
 }
 
+// passThroughParam: every return of fn hands back, at result idx, the same parameter of fn
+// unchanged; its index, or -1.
+func passThroughParam(fn *ssa.Function, idx int) int {
+	k := -1
+	for _, r := range Returns(fn) {
+		if idx >= len(r.Results) {
+			return -1
+		}
+		p, ok := r.Results[idx].(*ssa.Parameter)
+		if !ok {
+			return -1
+		}
+		j := -1
+		for i, q := range fn.Params {
+			if q == p {
+				j = i
+			}
+		}
+		if j < 0 || (k >= 0 && k != j) {
+			return -1
+		}
+		k = j
+	}
+	return k
+}
+
 // mayBeNilValue over-approximates whether v can be nil when control is in block b.
 func mayBeNilValue(v ssa.Value, b *ssa.BasicBlock, memo nonNilMemo, depth int, seen map[ssa.Value]bool) bool {
 	if seen[v] {
@@ -110,6 +136,24 @@ func mayBeNilValue(v ssa.Value, b *ssa.BasicBlock, memo nonNilMemo, depth int, s
 		if fn := c.Common().StaticCallee(); fn != nil && idx >= 0 {
 			if alwaysNonNil(fn, idx, memo, depth+1) {
 				return false
+			}
+		} else if c.Common().Value != nil && !c.Common().IsInvoke() {
+			// a local function literal that wraps or formats an error (`return nil, fail(err)`)
+			if lit := closureTarget(c.Common().Value); lit != nil {
+				i := idx
+				if i < 0 {
+					i = 0
+				}
+				if alwaysNonNil(lit, i, memo, depth+1) {
+					return false
+				}
+				// a literal that hands one of its parameters back unchanged (`fail := func(err
+				// error) (T, error) { return nil, err }`): as nil as the argument at this call
+				if k := passThroughParam(lit, i); k >= 0 && k < len(c.Common().Args) && depth < 4 {
+					if cv, isV := c.(ssa.Value); isV {
+						return mayBeNilValue(c.Common().Args[k], cv.(ssa.Instruction).Block(), memo, depth+1, seen)
+					}
+				}
 			}
 		}
 	}
@@ -477,7 +521,8 @@ func OpaqueDispatch(fn *ssa.Function) string {
 		}
 		return false
 	}
-	for _, dc := range AllDeepCalls(fn, nil) {
+	// (exported functions are API with a meaning of their own: what they do inside is theirs)
+	for _, dc := range AllDeepCalls(fn, exportedFunc) {
 		cm := dc.Call.Common()
 		if cm.IsInvoke() {
 			if named, ok := cm.Value.Type().(*types.Named); ok {
@@ -496,6 +541,33 @@ func OpaqueDispatch(fn *ssa.Function) string {
 		}
 		if fromTable(cm.Value, 0) {
 			return "a call of a function value taken from a table"
+		}
+		// a function-valued field of an unexported struct type of the repository (a layout or
+		// strategy record)
+		var holder types.Type
+		switch x := cm.Value.(type) {
+		case *ssa.UnOp:
+			if fa, ok := x.X.(*ssa.FieldAddr); ok {
+				holder = fa.X.Type()
+			}
+		case *ssa.Field:
+			holder = x.X.Type()
+		}
+		// (a field of a named function type declared for callers - a callback such as
+		// spec.UserIDForSender - is an input of the routine, not a step of it)
+		if nt, isNamed := cm.Value.Type().(*types.Named); isNamed && nt.Obj() != nil && nt.Obj().Exported() {
+			holder = nil
+		}
+		if holder != nil {
+			if p, isP := holder.Underlying().(*types.Pointer); isP {
+				holder = p.Elem()
+			}
+			if p, isP := holder.(*types.Pointer); isP {
+				holder = p.Elem()
+			}
+			if named, ok := holder.(*types.Named); ok && named.Obj() != nil && named.Obj().Pkg() != nil && strings.HasPrefix(named.Obj().Pkg().Path(), ModPath) && !named.Obj().Exported() {
+				return "a call of a function-valued field of the unexported type " + named.Obj().Name()
+			}
 		}
 	}
 	return ""
